@@ -28,6 +28,7 @@ import sys
 
 import numpy as np
 
+NP_BOOLS = False        # pass keyword booleans as np.bool_ in a share of the calls
 P_PROBE = 0.3            # share of outermost calls that are probed
 MAX_ELEMS = 120000       # skip calls whose array arguments are larger in total (cost)
 
@@ -323,6 +324,13 @@ def _evict_args(a, k):
     return tuple(cut(v) for v in a), {n: cut(v) for n, v in k.items()}
 
 
+def _np_bool(v):
+    """an equal truth value that is not the Python singleton (np.bool_ from a comparison): code that tests `is True` / `is False` is wrong"""
+    if isinstance(v, bool):
+        return np.bool_(v)
+    return v
+
+
 def _fresh_str(v):
     """an equal string that is not the interned literal (Python compares strings with ==; code that uses `is` is wrong)"""
     if isinstance(v, str) and len(v) >= 2:
@@ -376,6 +384,8 @@ def _wrap_function(orig, qual):
             if rng.random() < 0.5:
                 a = tuple(_fresh_str(v) for v in a)
                 k = {n: _fresh_str(v) for n, v in k.items()}
+            if NP_BOOLS and rng.random() < 0.3:
+                k = {n: _np_bool(v) for n, v in k.items()}
             res0 = _wrapper_body(st, rng, orig, qual, a, k)
             if _signal_like(res0) and rng.random() < 0.5 and st.prop not in NO_METHOD_PROBE:
                 _factory_check(st, qual, res0, a, k)
@@ -401,7 +411,26 @@ def _wrapper_body(st, rng, orig, qual, a, k):
             if sibs and rng.random() < 0.3:
                 # another public function of the same module on the same first argument, first (state shared between functions)
                 nm, sib = rng.choice(sibs)
-                _run(sib, (a[0],), {})
+                extra = ()
+                if rng.random() < 0.5:
+                    # ... with non-default values of its numeric options, given positionally (state that depends on an option)
+                    try:
+                        ps = list(inspect.signature(sib).parameters.values())[1:]
+                        vals = []
+                        for q in ps:
+                            d = q.default
+                            if isinstance(d, bool) or d is inspect.Parameter.empty:
+                                break
+                            if isinstance(d, int):
+                                vals.append(d + 1)
+                            elif isinstance(d, float):
+                                vals.append(d * 2 + 0.5)
+                            else:
+                                break
+                        extra = tuple(vals[:rng.randint(1, max(1, len(vals)))]) if vals else ()
+                    except Exception:  # noqa
+                        extra = ()
+                _run(sib, (a[0],) + extra, {})
                 st.n_pre += 1
                 st.ctx.hist('probe/pre-call/sibling')
                 return orig(*a, **k)
